@@ -14,7 +14,8 @@ def quiet (c : Call) : Call := { c with lvl1 := false }
 theorem pbarUpdate_strip (c : Call) (p : PBar) (s : F) (pos : Pos) (i : Nat) :
     pbarUpdate (quiet c) (stripP p) s pos i = stripP (pbarUpdate c p s pos i) := by
   unfold pbarUpdate PBar.update0 PBar.update1 PBar.new2best stripP quiet
-  by_cases h : F.gt s p.scoreBest = true <;> by_cases hl : c.lvl1 = true <;> simp [h, hl]
+  by_cases h : F.gt s p.scoreBest = true <;> by_cases hl : c.lvl1 = true <;>
+    by_cases ha : accepts p.scoreBest p.posBest s = true <;> simp [h, hl, ha]
 
 def mapCS (r : Except Err (DState σ × CState)) : Except Err (DState σ × CState) :=
   match r with
